@@ -94,4 +94,164 @@ theorem shiftLeft_spec {s : St} {inp : List Bool} (hwf : WF s inp) {w : List Nat
     conv => rhs; rw [hs, Nat.pow_add, Nat.mul_comm (toNat (busVal s inp w)), Nat.mul_mod_mul_left]
     omega
 
+theorem toNat_ext {s s' : St} {inp : List Bool} {ws : List Nat} (e : Ext s s' inp) (h : Bnd s ws) :
+    toNat (busVal s' inp ws) = toNat (busVal s inp ws) := by rw [busVal_ext e h]
+
+theorem busVal_drop' (s : St) (inp : List Bool) (a : List Nat) (n : Nat) :
+    busVal s inp (a.drop n) = (busVal s inp a).drop n := by simp [busVal, List.map_drop]
+
+theorem toNat_take_drop (l : List Bool) (k : Nat) (hk : k ≤ l.length) :
+    toNat l = toNat (l.take k) + 2 ^ k * toNat (l.drop k) := by
+  conv => lhs; rw [← List.take_append_drop k l]
+  rw [toNat_append]; simp [Nat.min_eq_left hk]
+
+/-- `NewKaratsubaMultiplier` is exact for every array threshold `limit ≥ 3`
+(smaller limits make the Go recursion non-terminating), every operand and
+result width: `(a·b) mod 2^nr`.  `fuel` is the recursion budget of the model
+(`fuel ≥ min(max(|a|,|b|), nr)` suffices). -/
+theorem karatsuba_spec {inp : List Bool} (gmw : Bool) (limit : Nat) (hlim : 3 ≤ limit) :
+    ∀ (fuel : Nat) (a b : List Nat) (nr : Nat) {s : St} (_ : WF s inp), Bnd s a → Bnd s b →
+    0 < max a.length b.length → 0 < nr → min (max a.length b.length) nr ≤ fuel →
+    Spec inp s (karatsuba gmw limit (fuel + 1) a b nr) (fun z s' => ∃ r, z = some r ∧ Bnd s' r ∧
+      r.length = nr ∧ toNat (busVal s' inp r) = (toNat (busVal s inp a) * toNat (busVal s inp b)) % 2 ^ nr) := by
+  intro fuel
+  induction fuel with
+  | zero => intro a b nr s _ _ _ hne hnr hm; omega
+  | succ fuel ih =>
+    intro a b nr s hwf ha hb hne hnr hm
+    rw [karatsuba]
+    refine Spec.bind (zeroPad_spec hwf ha hb) ?_
+    intro p s1 e1 ⟨hp1, hp2, hv1, hv2⟩
+    simp only
+    have hlen1 : p.1.length = max a.length b.length := by
+      have := congrArg List.length hv1; simp at this; omega
+    have hlen2 : p.2.length = max a.length b.length := by
+      have := congrArg List.length hv2; simp at this; omega
+    generalize hat : p.1.take nr = at'
+    generalize hbt : p.2.take nr = bt
+    have hatb : Bnd s1 at' := hat ▸ hp1.take nr
+    have hbtb : Bnd s1 bt := hbt ▸ hp2.take nr
+    have hatl : at'.length = min (max a.length b.length) nr := by rw [← hat]; simp [hlen1]; omega
+    have hbtl : bt.length = min (max a.length b.length) nr := by rw [← hbt]; simp [hlen2]; omega
+    have hAv : toNat (busVal s1 inp at') = toNat (busVal s inp a) % 2 ^ nr := by
+      rw [← hat, busVal_take, hv1, toNat_take, toNat_padTo]
+    have hBv : toNat (busVal s1 inp bt) = toNat (busVal s inp b) % 2 ^ nr := by
+      rw [← hbt, busVal_take, hv2, toNat_take, toNat_padTo]
+    have hfin : ∀ R : Nat, R = (toNat (busVal s1 inp at') * toNat (busVal s1 inp bt)) % 2 ^ nr →
+        R = (toNat (busVal s inp a) * toNat (busVal s inp b)) % 2 ^ nr := by
+      intro R hR; rw [hR, hAv, hBv, ← Nat.mul_mod]
+    generalize hn : at'.length = n at *
+    have hn1 : 0 < n := by omega
+    have hnnr : n ≤ nr := by omega
+    have hbtn : bt.length = n := by omega
+    split
+    · -- array multiplier
+      refine (arrayMultiplier_spec e1.wf nr hatb hbtb (by omega) hnr).map ?_
+      intro r s2 _ ⟨hrb, hrl, hrv⟩
+      exact ⟨r, rfl, hrb, hrl, hfin _ hrv⟩
+    · next hgt =>
+      have hn4 : 4 ≤ n := by omega
+      generalize hmid : n / 2 = mid
+      have hmid2 : 2 ≤ mid := by omega
+      have hmidn : mid * 2 ≤ n := by omega
+      have hk : mid ≤ n - mid := by omega
+      -- operand halves
+      have hALl : (at'.take mid).length = mid := by simp [hn]; omega
+      have hBLl : (bt.take mid).length = mid := by simp [hbtn]; omega
+      have hAHl : (at'.drop mid).length = n - mid := by simp [hn]
+      have hBHl : (bt.drop mid).length = n - mid := by simp [hbtn]
+      have hAsplit := toNat_take_drop (busVal s1 inp at') mid (by simp [hn]; omega)
+      have hBsplit := toNat_take_drop (busVal s1 inp bt) mid (by simp [hbtn]; omega)
+      rw [← busVal_take, ← busVal_drop'] at hAsplit hBsplit
+      have hALlt : toNat (busVal s1 inp (at'.take mid)) < 2 ^ mid := by
+        have := toNat_lt (busVal s1 inp (at'.take mid)); rwa [busVal_length, hALl] at this
+      have hBLlt : toNat (busVal s1 inp (bt.take mid)) < 2 ^ mid := by
+        have := toNat_lt (busVal s1 inp (bt.take mid)); rwa [busVal_length, hBLl] at this
+      have hAHlt : toNat (busVal s1 inp (at'.drop mid)) < 2 ^ (n - mid) := by
+        have := toNat_lt (busVal s1 inp (at'.drop mid)); rwa [busVal_length, hAHl] at this
+      have hBHlt : toNat (busVal s1 inp (bt.drop mid)) < 2 ^ (n - mid) := by
+        have := toNat_lt (busVal s1 inp (bt.drop mid)); rwa [busVal_length, hBHl] at this
+      have hpk : 2 ^ mid ≤ 2 ^ (n - mid) := Nat.pow_le_pow_right (by omega) hk
+      generalize hAl : toNat (busVal s1 inp (at'.take mid)) = Al at *
+      generalize hAh : toNat (busVal s1 inp (at'.drop mid)) = Ah at *
+      generalize hBl : toNat (busVal s1 inp (bt.take mid)) = Bl at *
+      generalize hBh : toNat (busVal s1 inp (bt.drop mid)) = Bh at *
+      rw [hALl, hBLl, hAHl, hBHl]
+      simp only [Nat.max_self, Nat.max_eq_right hk]
+      -- z0
+      refine Spec.bind (ih (at'.take mid) (bt.take mid) _ e1.wf (hatb.take mid) (hbtb.take mid)
+        (by rw [hALl, hBLl]; omega) (by omega) (by rw [hALl, hBLl]; omega)) ?_
+      intro r0 s2 e2 ⟨z0, hr0, hz0b, hz0l, hz0v⟩
+      subst hr0
+      simp only
+      rw [hAl, hBl] at hz0v
+      -- aSum, bSum
+      refine Spec.bind (newAdder_spec e2.wf gmw (n - mid + 1) ((hatb.take mid).mono e2) ((hatb.drop mid).mono e2)
+        (by rw [hALl, hAHl]; omega) (by omega)) ?_
+      intro aSum s3 e3 ⟨hasb, hasl, hasv⟩
+      rw [toNat_ext e2 (hatb.take mid), toNat_ext e2 (hatb.drop mid), hAl, hAh] at hasv
+      have e13 := e2.trans e3
+      refine Spec.bind (newAdder_spec e3.wf gmw (n - mid + 1) ((hbtb.take mid).mono e13) ((hbtb.drop mid).mono e13)
+        (by rw [hBLl, hBHl]; omega) (by omega)) ?_
+      intro bSum s4 e4 ⟨hbsb, hbsl, hbsv⟩
+      rw [toNat_ext e13 (hbtb.take mid), toNat_ext e13 (hbtb.drop mid), hBl, hBh] at hbsv
+      have hps : 2 ^ (n - mid + 1) = 2 * 2 ^ (n - mid) := by rw [Nat.pow_succ]; omega
+      rw [Nat.mod_eq_of_lt (by omega)] at hasv hbsv
+      -- z1
+      refine Spec.bind (ih aSum bSum _ e4.wf (hasb.mono e4) hbsb (by rw [hasl, hbsl]; omega) (by omega)
+        (by rw [hasl, hbsl]; omega)) ?_
+      intro r1 s5 e5 ⟨z1, hr1, hz1b, hz1l, hz1v⟩
+      subst hr1
+      simp only
+      rw [toNat_ext e4 hasb, hasv, hbsv] at hz1v
+      -- z2
+      have e15 := ((e13.trans e4).trans e5)
+      refine Spec.bind (ih (at'.drop mid) (bt.drop mid) _ e5.wf ((hatb.drop mid).mono e15) ((hbtb.drop mid).mono e15)
+        (by rw [hAHl, hBHl]; omega) (by omega) (by rw [hAHl, hBHl]; omega)) ?_
+      intro r2 s6 e6 ⟨z2, hr2, hz2b, hz2l, hz2v⟩
+      subst hr2
+      simp only
+      rw [toNat_ext e15 (hatb.drop mid), toNat_ext e15 (hbtb.drop mid), hAh, hBh] at hz2v
+      -- sub1 = z1 - z2, sub2 = sub1 - z0
+      refine Spec.bind (newSubtractor_spec e6.wf gmw nr (hz1b.mono e6) hz2b (by rw [hz1l]; omega) hnr) ?_
+      intro sub1 s7 e7 ⟨hs1b, hs1l, hs1v⟩
+      rw [toNat_ext e6 hz1b] at hs1v
+      have e27 := (((e3.trans e4).trans e5).trans e6).trans e7
+      refine Spec.bind (newSubtractor_spec e7.wf gmw nr hs1b (hz0b.mono e27) (by rw [hs1l]; omega) hnr) ?_
+      intro sub2 s8 e8 ⟨hs2b, hs2l, hs2v⟩
+      rw [toNat_ext e27 hz0b] at hs2v
+      -- shifts
+      refine Spec.bind (shiftLeft_spec e8.wf nr (mid * 2) (hz2b.mono (e7.trans e8)) (by omega)) ?_
+      intro sh1 s9 e9 ⟨hsh1b, hsh1l, hsh1v⟩
+      rw [toNat_ext (e7.trans e8) hz2b] at hsh1v
+      refine Spec.bind (shiftLeft_spec e9.wf nr mid (hs2b.mono e9) (by omega)) ?_
+      intro sh2 s10 e10 ⟨hsh2b, hsh2l, hsh2v⟩
+      rw [toNat_ext e9 hs2b] at hsh2v
+      -- final additions
+      refine Spec.bind (newAdder_spec e10.wf gmw nr (hsh1b.mono e10) hsh2b (by rw [hsh1l]; omega) hnr) ?_
+      intro add1 s11 e11 ⟨ha1b, ha1l, ha1v⟩
+      rw [toNat_ext e10 hsh1b] at ha1v
+      have e2_11 := (((e27.trans e8).trans e9).trans e10).trans e11
+      refine (newAdder_spec e11.wf gmw nr ha1b (hz0b.mono e2_11) (by rw [ha1l]; omega) hnr).map ?_
+      intro r s12 _ ⟨hrb, hrl, hrv⟩
+      rw [toNat_ext e2_11 hz0b] at hrv
+      refine ⟨r, rfl, hrb, hrl, hfin _ ?_⟩
+      rw [hAsplit, hBsplit]
+      have hrlt := toNat_lt (busVal s12 inp r)
+      rw [busVal_length, hrl] at hrlt
+      rw [← Nat.mod_eq_of_lt hrlt]
+      have hpp : 2 ^ mid * 2 ^ mid = 2 ^ (mid * 2) := by rw [Nat.mul_two, Nat.pow_add]
+      apply karatsuba_algebra (2 ^ nr) (2 ^ mid) Al Ah Bl Bh (toNat (busVal s2 inp z0)) (toNat (busVal s5 inp z1))
+        (toNat (busVal s6 inp z2)) (toNat (busVal s7 inp sub1)) (toNat (busVal s8 inp sub2))
+        (toNat (busVal s9 inp sh1)) (toNat (busVal s10 inp sh2)) (toNat (busVal s11 inp add1))
+      · rw [hz0v]; exact mul_mod_width Al Bl mid nr hALlt hBLlt
+      · rw [hz2v]; exact mul_mod_width Ah Bh (n - mid) nr hAHlt hBHlt
+      · rw [hz1v]; exact mul_mod_width (Al + Ah) (Bl + Bh) (n - mid + 1) nr (by omega) (by omega)
+      · exact hs1v
+      · exact hs2v
+      · rw [hsh1v, Nat.mod_mod, hpp]
+      · rw [hsh2v, Nat.mod_mod]
+      · rw [ha1v, Nat.mod_mod]
+      · rw [hrv, Nat.mod_mod]
+
 end Mpc.Bld
